@@ -128,10 +128,48 @@ func recoverDir(f []string) string {
 		v.Start()
 		v.Batch(99)
 		v.Flush()
-		res += " cont:" + v.Dump()
+		v.WaitClean()
+		res += " cont:" + drv.Safe(v.Dump)
+		// second life: merge every file part (the next manifest is SHORTER than any the first life wrote for
+		// the same epoch and may be published over a stale `<epoch>.snp.tmp` of the crashed run), stop, start again:
+		// the table must come back with everything, from a manifest that names exactly its parts
+		sel := make([]int, 64)
+		for i := range sel {
+			sel[i] = i
+		}
+		merged := drv.Safe(func() string { return drv.B01(v.Merge(sel, false)) })
+		v.WaitClean()
+		v.WaitGone()
+		v.Close()
+		v2 := measure.VC04Open(dir, freshEpoch)
+		res += " cont2:merged=" + merged + " " + drv.Safe(v2.Dump) + " man=" + newestManifest(dir)
+		v2.Close()
+		return res
 	}
 	v.Close()
 	return res
+}
+
+// newestManifest returns "<name>=<hex content>" of the newest *.snp file in dir ("-" if there is none).
+func newestManifest(dir string) string {
+	ee, err := os.ReadDir(dir)
+	if err != nil {
+		return "-"
+	}
+	best := ""
+	for _, e := range ee {
+		if !e.IsDir() && strings.HasSuffix(e.Name(), ".snp") && e.Name() > best {
+			best = e.Name()
+		}
+	}
+	if best == "" {
+		return "-"
+	}
+	b, err := os.ReadFile(filepath.Join(dir, best))
+	if err != nil {
+		return "-"
+	}
+	return best + "=" + drv.Hex(b)
 }
 
 func main() {
